@@ -84,6 +84,19 @@ class MetaString(type):
         else:
             raise ValueError(f"{value} not a string")
 
+    def _set_in_place(cls, buffer, offset, value):
+        """Assign to a string that already lives at `offset`: the space fixed
+        at creation (its size word) cannot change."""
+        if isinstance(value, String):
+            value = value.to_str()
+        if not isinstance(value, str):
+            raise ValueError(f"{value} not a string")
+        size = Int64._from_buffer(buffer, offset)
+        data = bytes(value, "utf8")
+        if len(data) + 1 + 8 > size:
+            raise ValueError(f"`{value}` too large to fit in {size} bytes")
+        cls._to_buffer(buffer, offset, value, Info(size=size, data=data))
+
     def _get_data(cls, buffer, offset):
         ll = Int64._from_buffer(buffer, offset)
         return buffer.to_bytearray(offset + 8, ll - 8)
